@@ -8,6 +8,9 @@
 //!   * an archive in which one non-manifest entry is modified (manifest kept), and — when the entry exists —
 //!     `preferences.json` replaced with manifest checksums "" / "00" / 32 zero bytes, is rejected and no
 //!     account exists afterwards (C18 sentence 2);
+//!   * (file-system accounts) a copy upgraded with sos_database_upgrader::upgrade_accounts signs in on the database
+//!     backend, serves the model and reports the SAME sync status (root, and commit state of the identity, account,
+//!     device, file and every folder log) as before the upgrade (C19);
 //!   * an archive with an extra entry `files/<folder id>/../../../../../../<marker>` never produces the
 //!     marker file outside the import target directory (C18 sentence 3).
 use crate::Rng;
@@ -106,6 +109,15 @@ async fn write_entries(path: &Path, entries: &[(String, Vec<u8>)]) {
     std::fs::write(path, archive).unwrap();
 }
 
+fn copy_dir(from: &Path, to: &Path) {
+    std::fs::create_dir_all(to).unwrap();
+    for e in std::fs::read_dir(from).unwrap().flatten() {
+        let p = e.path();
+        let q = to.join(e.file_name());
+        if p.is_dir() { copy_dir(&p, &q); } else { std::fs::copy(&p, &q).unwrap(); }
+    }
+}
+
 fn find_marker(dir: &Path, out: &mut Vec<PathBuf>) {
     if let Ok(rd) = std::fs::read_dir(dir) {
         for e in rd.flatten() {
@@ -137,6 +149,19 @@ pub async fn run(cases: usize, seed: u64) {
             let mut model: Model = BTreeMap::new();
             model.insert(*default_folder.id(), (default_folder.name().to_string(), BTreeMap::new()));
             let mut trace: Vec<String> = vec![];
+            if case % 2 == 1 {
+                // a folder created and deleted before another one is populated (row ids / positions diverge)
+                let a = account.create_folder(NewFolderOptions::new("scratch".to_string())).await.unwrap().folder;
+                let name = format!("folder-{}", r.below(100000));
+                let b = account.create_folder(NewFolderOptions::new(name.clone())).await.unwrap().folder;
+                account.delete_folder(a.id()).await.unwrap();
+                let (m, s, l, t) = note(&mut r);
+                let id = account.create_secret(m, s, AccessOptions { folder: Some(*b.id()), ..Default::default() }).await.unwrap().id;
+                plaintexts.push(l.clone()); plaintexts.push(t.clone());
+                let mut secrets = BTreeMap::new(); secrets.insert(id, (l, t));
+                model.insert(*b.id(), (name, secrets));
+                trace.push("create_folder(scratch); create_folder; delete_folder(scratch); create_secret".into());
+            }
             let n = 3 + r.below(8) as usize;
             for _ in 0..n {
                 let fids: Vec<VaultId> = model.keys().copied().collect();
@@ -207,10 +232,38 @@ pub async fn run(cases: usize, seed: u64) {
             account.sign_in(&key).await.unwrap();
             compare("after sign-out/sign-in", backend, &account, &model, &trace, case).await;
 
+            let status_before = { use sos_sync::SyncStorage; account.sync_status().await.unwrap() };
             // ---- C18: export, import into empty storage ---------------------------------------------
             let archive = sandbox_dir.join("backup.zip");
             account.export_backup_archive(&archive).await.unwrap();
             account.sign_out().await.unwrap();
+
+            // ---- C19: upgrade a COPY of the file-system account to the database backend --------------
+            if backend == "filesystem" {
+                let up_dir = sandbox_dir.join("upgrade");
+                copy_dir(&sandbox_dir.join("source"), &up_dir);
+                let up_paths = Paths::new_client(&up_dir);
+                let options = sos_database_upgrader::UpgradeOptions { paths: up_paths.clone(), dry_run: false, keep_stale_files: true, ..Default::default() };
+                match sos_database_upgrader::upgrade_accounts(up_dir.clone(), options).await {
+                    Err(e) => fail("upgrade-fails", format!("\"case\":{},\"trace\":{:?},\"error\":\"{}\"", case, trace, e.to_string().replace('"', "'"))),
+                    Ok(res) => {
+                        let client = sos_database::open_file(&res.database_file).await.unwrap();
+                        let db_target = BackendTarget::Database(up_paths.clone(), client);
+                        let mut up = LocalAccount::new_unauthenticated(account_id, db_target).await.unwrap();
+                        if let Err(e) = up.sign_in(&key).await {
+                            fail("upgraded-account-does-not-sign-in", format!("\"case\":{},\"trace\":{:?},\"error\":\"{}\"", case, trace, e.to_string().replace('"', "'")));
+                        }
+                        compare("upgraded to the database backend", "filesystem->database", &up, &model, &trace, case).await;
+                        let status_after = { use sos_sync::SyncStorage; up.sync_status().await.unwrap() };
+                        if status_after != status_before {
+                            fail("upgrade-changes-sync-status", format!("\"case\":{},\"trace\":{:?},\"root_before\":\"{}\",\"root_after\":\"{}\",\"identity_same\":{},\"account_same\":{},\"device_same\":{},\"files_same\":{},\"folders_same\":{}",
+                                case, trace, status_before.root, status_after.root, status_before.identity == status_after.identity, status_before.account == status_after.account,
+                                status_before.device == status_after.device, status_before.files == status_after.files, status_before.folders == status_after.folders));
+                        }
+                        up.sign_out().await.unwrap();
+                    }
+                }
+            }
             let restore_target = target_for(backend, &sandbox_dir.join("restore")).await;
             match LocalAccount::import_backup_archive(&archive, &restore_target).await {
                 Ok(list) => if list.len() != 1 || list[0].account_id() != &account_id {
@@ -237,19 +290,30 @@ pub async fn run(cases: usize, seed: u64) {
                 e2[k].1[pos] ^= 0x01;
                 variants.push((format!("byte {} of entry {} flipped", pos, e2[k].0), e2));
             }
-            // (b) preferences entry replaced, manifest checksum for it empty / one byte / zeros
-            if entries.iter().any(|(n, _)| n == "preferences.json") {
-                for cs in ["", "00", &"00".repeat(32)] {
-                    let mut e2 = entries.clone();
-                    for (n, d) in e2.iter_mut() {
-                        if n == "preferences.json" { *d = br#"{"tampered":{"bool":true}}"#.to_vec(); }
-                        if n == "sos-manifest.json" {
-                            let mut m: serde_json::Value = serde_json::from_slice(d).unwrap();
-                            m["preferences"] = serde_json::Value::String(cs.to_string());
-                            *d = serde_json::to_vec_pretty(&m).unwrap();
+            // (b) for every manifest field that is a plain checksum string of an entry (account / files / preferences /
+            //     remotes events or settings): the entry the checksum names (found by its SHA-256) gets one byte
+            //     changed and the manifest checksum becomes "" / one byte / 32 zero bytes
+            if let Some((_, mbytes)) = entries.iter().find(|(n, _)| n == "sos-manifest.json") {
+                use sha2::{Digest, Sha256};
+                if let Ok(m) = serde_json::from_slice::<serde_json::Value>(mbytes) {
+                    for field in ["account", "files", "preferences", "remotes"] {
+                        if let Some(cs) = m.get(field).and_then(|v| v.as_str()) {
+                            if let Some(k) = entries.iter().position(|(_, d)| hex::encode(Sha256::digest(d)) == cs) {
+                                for bad in ["".to_string(), "00".to_string(), "00".repeat(32)] {
+                                    let mut e2 = entries.clone();
+                                    if e2[k].1.is_empty() { e2[k].1.push(1); } else { let n = e2[k].1.len(); e2[k].1[n - 1] ^= 0x01; }
+                                    for (n, d) in e2.iter_mut() {
+                                        if n == "sos-manifest.json" {
+                                            let mut m2 = m.clone();
+                                            m2[field] = serde_json::Value::String(bad.clone());
+                                            *d = serde_json::to_vec_pretty(&m2).unwrap();
+                                        }
+                                    }
+                                    variants.push((format!("entry {} (manifest field {}) modified, manifest checksum {:?}", entries[k].0, field, bad), e2));
+                                }
+                            }
                         }
                     }
-                    variants.push((format!("preferences.json replaced, manifest checksum {:?}", cs), e2));
                 }
             }
             for (vi, (what, e2)) in variants.iter().enumerate() {
